@@ -126,10 +126,10 @@ class Whitener(Transformer):
         power = (self.alpha - 1) / 2
         svd_kwargs = {"random_state": self.random_state, "solver": "full"}
         T = _fractional_matrix_power(C, power, **svd_kwargs)
-        try:
-            Tinv = np.linalg.inv(T)
-        except np.linalg.LinAlgError:
-            Tinv = np.linalg.pinv(T)
+        # T is a pseudo-power (null directions of C are dropped) and exactly singular for
+        # a rank-deficient C; np.linalg.inv does not reliably raise on it but returns
+        # huge numbers. The opposite power is the proper (pseudo-)inverse.
+        Tinv = _fractional_matrix_power(C, -power, **svd_kwargs)
         return T, Tinv
 
     def transform(self, X: DataArray) -> DataArray:
